@@ -102,6 +102,8 @@ func ruleR29(c *Ctx) {
 				return "local value " + v.Name() + " of the enclosing function, assigned by a closure that only runs within it", ""
 			case !localTo(v) && through && c.runsWithinParent(u) && alwaysFresh(m, declBody(u), v, 0):
 				return "memory allocated by the enclosing call, written by a closure that runs within it (deferred / called on the spot): " + v.Name(), ""
+			case !localTo(v) && !through && c.perPassFactory(u, v):
+				return "variable " + v.Name() + " of one call of " + u.Parent.Name + ", which builds this closure and is called once per pass by the sequences that use it", ""
 			case !localTo(v):
 				return "", "store to " + text + ": variable " + v.Name() + " is captured from an enclosing function (state shared between calls of the closure)"
 			case !through:
@@ -229,6 +231,21 @@ func ruleR29(c *Ctx) {
 					if sel, ok := ast.Unparen(x.Fun).(*ast.SelectorExpr); ok {
 						if s := info.Selections[sel]; s != nil {
 							return // resolved by the call graph (interface calls fan out to every implementation)
+						}
+					}
+				}
+				if name == "" {
+					// seq()(callback): one pass of a sequence obtained from a call (t.Backward()(f)) –
+					// what the pass does is the body of that sequence, which is judged as a
+					// sequence of its own; the callback is a function of this package
+					if inner, ok := ast.Unparen(x.Fun).(*ast.CallExpr); ok && len(x.Args) == 1 {
+						if sig, ok := info.TypeOf(x.Fun).Underlying().(*types.Signature); ok && sig.Params().Len() == 1 && sig.Results().Len() == 0 {
+							if _, isFn := sig.Params().At(0).Type().Underlying().(*types.Signature); isFn {
+								if isel, ok := ast.Unparen(inner.Fun).(*ast.SelectorExpr); ok && info.Selections[isel] != nil || c.m.calleeUnit(inner) != nil {
+									report("runs a pass of "+types.ExprString(inner.Fun), x.Pos(), "one pass of a sequence of the library, whose body is judged on its own", "")
+									return
+								}
+							}
 						}
 					}
 				}
@@ -475,4 +492,73 @@ func isParamOf(info *types.Info, root ast.Node, v *types.Var) bool {
 		return true
 	})
 	return found
+}
+
+// perPassFactory: u is a closure built and returned by a declared function (atMost(n, yield)
+// returning a callback with its own counter), v a variable of that function, and every call of
+// the function sits inside a sequence literal with its result handed straight to a call – so each
+// iteration pass gets a closure, and a v, of its own.
+func (c *Ctx) perPassFactory(u *FuncUnit, v *types.Var) bool {
+	m := c.m
+	parent := u.Parent
+	if u.Lit == nil || parent == nil || parent.Lit != nil || parent.Decl == nil || parent.Body == nil {
+		return false
+	}
+	if v.Pos() < parent.Decl.Pos() || v.Pos() > parent.Decl.End() || v.IsField() {
+		return false
+	}
+	// the literal is what the function returns
+	returned := false
+	ast.Inspect(parent.Body, func(n ast.Node) bool {
+		if lit, ok := n.(*ast.FuncLit); ok && lit != u.Lit {
+			return false
+		}
+		if rs, ok := n.(*ast.ReturnStmt); ok {
+			for _, r := range rs.Results {
+				if ast.Unparen(r) == ast.Expr(u.Lit) {
+					returned = true
+				}
+			}
+		}
+		return true
+	})
+	if !returned {
+		return false
+	}
+	seq := map[*FuncUnit]bool{}
+	for _, s := range c.seqLiterals() {
+		seq[s] = true
+	}
+	sites := c.callSitesOf(parent)
+	if len(sites) == 0 {
+		return false
+	}
+	for _, s := range sites {
+		inSeq := false
+		for x := s.u; x != nil; x = x.Parent {
+			if seq[x] {
+				inSeq = true
+			}
+		}
+		if !inSeq {
+			return false
+		}
+		// the result is an argument of a call (consumed by the pass), not kept anywhere
+		asArg := false
+		ast.Inspect(s.u.Body, func(n ast.Node) bool {
+			if call, ok := n.(*ast.CallExpr); ok && call != s.call {
+				for _, a := range call.Args {
+					if ast.Unparen(a) == ast.Expr(s.call) {
+						asArg = true
+					}
+				}
+			}
+			return true
+		})
+		if !asArg {
+			return false
+		}
+	}
+	_ = m
+	return true
 }
